@@ -731,7 +731,6 @@ func returnsConst(b *ssa.BasicBlock, want bool) bool {
 
 var _ = strings.Join
 
-
 // ruleC15R6: the value of a quoted literal is what the scan decoded, nothing else. Every value consumeQuotedContent
 // returns is the empty string (error paths) or the string conversion of the byte slice the scan loop built by appending
 // — not that slice handed through another function ("normalise CRLF", "trim", "to valid UTF-8"): a post-processing of the
